@@ -349,6 +349,18 @@ func (bc *buildCtx) realImpl(d *D) interface{} {
 	case "RValueField":
 		// a value obtained through an unexported field (CanInterface false)
 		return reflect.ValueOf(tSUnexp{int(d.N), string(d.S), string(d.S)}).Field(int(d.N&1) + 1)
+	case "RVIdx":
+		// an interface-kind value (what a generic walker gets from a slice element): accessible, addressable
+		return reflect.ValueOf([]interface{}{bc.real(d.Sub[0])}).Index(0)
+	case "RVFieldI":
+		// an interface-kind value from an unexported field: read-only
+		return reflect.ValueOf(tSUnexp{int(d.N), string(d.S), bc.real(d.Sub[0])}).Field(2)
+	case "RVFieldE":
+		// the read-only concrete value held by an unexported interface field (the invalid Value for nil)
+		return reflect.ValueOf(tSUnexp{int(d.N), string(d.S), bc.real(d.Sub[0])}).Field(2).Elem()
+	case "RVFieldT":
+		// a read-only value of a named type (N selects the field)
+		return reflect.ValueOf(tSUnexpT{redact.RedactableString(rvRed(d)), redact.RedactableBytes(rvRed(d)), tRegStr(d.S), tRegInt(d.N >> 3), tSVStr(d.S), tStringer{string(d.S)}, tRegDur(d.N >> 3)}).Field(rvFieldTIndex(d))
 	case "slice":
 		return bc.reals(d.Sub)
 	case "arr":
@@ -708,6 +720,23 @@ func (bc *buildCtx) plain(d *D) interface{} {
 		return tFmtFwd{bc.plain(d.Sub[0])}
 	case "RValue":
 		return reflect.ValueOf(bc.plain(d.Sub[0]))
+	case "RVIdx":
+		return reflect.ValueOf([]interface{}{bc.plain(d.Sub[0])}).Index(0)
+	case "RVFieldI":
+		if containsWrapper(d.Sub[0]) {
+			bc.fail("wrapper in unexported field")
+		}
+		return reflect.ValueOf(tSUnexp{int(d.N), string(d.S), bc.plain(d.Sub[0])}).Field(2)
+	case "RVFieldE":
+		if containsWrapper(d.Sub[0]) {
+			bc.fail("wrapper in unexported field")
+		}
+		return reflect.ValueOf(tSUnexp{int(d.N), string(d.S), bc.plain(d.Sub[0])}).Field(2).Elem()
+	case "RVFieldT":
+		if rvFieldTIndex(d) < 2 {
+			bc.fail("read-only redactable under Unsafe ignores the verb")
+		}
+		return bc.real(d)
 	case "ptr":
 		v := bc.plain(d.Sub[0])
 		if v == nil {
@@ -816,6 +845,46 @@ func (bc *buildCtx) twin(d *D, ctx int) interface{} {
 			return nil
 		}
 		return reflect.ValueOf(v)
+	case "RVIdx":
+		if wrappedNil(d.Sub[0]) {
+			// the content of a wrapper is printed like a top-level operand (a nil is padded); the stand-in
+			// would be a nil interface inside the reflect.Value (not padded by fmt)
+			bc.fail("reflect.Value of a wrapper around nil")
+			return nil
+		}
+		return reflect.ValueOf([]interface{}{bc.twin(d.Sub[0], ctx)}).Index(0)
+	case "RVFieldI":
+		// printed structurally, without methods: only leaves whose structural rendering is one unsafe extent
+		sub := d.Sub[0]
+		switch {
+		case sub.K == "RSlit" || sub.K == "RBlit":
+			bc.redactables = append(bc.redactables, string(sub.S))
+			return placeholder{len(bc.redactables) - 1}
+		case sub.K == "nil":
+			return bc.real(d)
+		case sub.K == "RegInt" || sub.K == "RegStr" || sub.K == "RegDur":
+			if bc.registered[sub.K] {
+				return bc.real(d)
+			}
+			return brk{bc.real(d)}
+		case structuralLeaf(sub.K):
+			return brk{bc.real(d)}
+		}
+		bc.fail("no faithful twin for " + sub.K + " in a read-only interface value")
+		return nil
+	case "RVFieldT":
+		switch rvFieldTIndex(d) {
+		case 0, 1:
+			bc.redactables = append(bc.redactables, rvRed(d))
+			return placeholder{len(bc.redactables) - 1}
+		case 2, 3, 6:
+			if bc.registered[[]string{"", "", "RegStr", "RegInt", "", "", "RegDur"}[rvFieldTIndex(d)]] {
+				return bc.real(d)
+			}
+			return brk{bc.real(d)}
+		}
+		bc.fail("no faithful twin for a read-only SafeValue / struct value")
+		return nil
 	}
 	if bc.isSafeKind(d.K) {
 		return bc.twinSafe(d) // safe as a whole; redactables inside keep their own envelopes
@@ -892,6 +961,23 @@ func (bc *buildCtx) twinSafe(d *D) interface{} {
 			return nil
 		}
 		return reflect.ValueOf(v)
+	case "RVIdx":
+		if wrappedNil(d.Sub[0]) {
+			bc.fail("reflect.Value of a wrapper around nil")
+			return nil
+		}
+		return reflect.ValueOf([]interface{}{bc.twinSafe(d.Sub[0])}).Index(0)
+	case "RVFieldI":
+		if k := d.Sub[0].K; k == "RSlit" || k == "RBlit" {
+			bc.redactables = append(bc.redactables, string(d.Sub[0].S))
+			return placeholder{len(bc.redactables) - 1}
+		}
+	case "RVFieldT":
+		if rvFieldTIndex(d) < 2 {
+			bc.redactables = append(bc.redactables, rvRed(d))
+			return placeholder{len(bc.redactables) - 1}
+		}
+		return bc.real(d)
 	}
 	if containsWrapper(d) {
 		bc.fail("wrapper below kind " + d.K + " in safe context")
@@ -907,6 +993,47 @@ func leafBracketable(k string) bool {
 	case "bool", "NBool", "float32", "float64", "NFloat", "string", "NStr",
 		"Stringer", "PStringer", "Err", "StdErr", "WrapErr", "PErr", "ErrStringer", "GoStrStringer", "Fmter", "ErrFmter", "FmtFlags",
 		"RegInt", "RegStr", "RegDur":
+		return true
+	}
+	return intOfKind(k, 0) != nil
+}
+
+// tSUnexpT: values of named types in unexported fields.
+type tSUnexpT struct {
+	rs  redact.RedactableString
+	rb  redact.RedactableBytes
+	reg tRegStr
+	ri  tRegInt
+	sv  tSVStr
+	st  tStringer
+	rd  tRegDur
+}
+
+func rvFieldTIndex(d *D) int { return int(uint64(d.N) % 7) }
+
+// rvRed: the redactable held by the rs/rb fields: the payload itself when it is a redactable
+// obtained from the library (K2 == "lit"), otherwise the library's own print of it.
+func rvRed(d *D) string {
+	if d.F == 1 {
+		return string(d.S)
+	}
+	return string(redact.Sprint(string(d.S)))
+}
+
+// wrappedNil: Safe()/Unsafe() (nested or not) around the untyped nil.
+func wrappedNil(d *D) bool {
+	n := 0
+	for d.K == "Safe" || d.K == "Unsafe" {
+		d = d.Sub[0]
+		n++
+	}
+	return n > 0 && d.K == "nil"
+}
+
+// structuralLeaf: kinds whose rendering without any method is a single scalar or string.
+func structuralLeaf(k string) bool {
+	switch k {
+	case "bool", "NBool", "float32", "float64", "NFloat", "string", "NStr":
 		return true
 	}
 	return intOfKind(k, 0) != nil
